@@ -42,6 +42,15 @@ type Key struct {
 	Pub   []byte // 48 bytes
 }
 
+// OpaqueKey returns a 48-byte key that is no BLS point: the store, the interchange files and the rules treat keys
+// as opaque bytes, so leading zero nibbles and bytes (which no compressed BLS key has) must be handled too.
+func OpaqueKey(label string, prefix ...byte) *Key {
+	h := sha256.Sum256([]byte("opaque-" + label))
+	pub := append(append([]byte{}, prefix...), h[:]...)
+	pub = append(pub, h[:]...)
+	return &Key{Index: -1, Pub: pub[:48]}
+}
+
 // Pub48 returns the public key as an array.
 func (k *Key) Pub48() [48]byte {
 	var r [48]byte
